@@ -813,16 +813,16 @@ def run(eng, rep):
     rep.explain("Also decided: rhoend <= rho, rho > 0 and 'rho never increases within a run' by interval reasoning over the if-chain of reduce_rho (ratio > 1 from the dominating guard of every call site) and the inclusive ranges of the parameter table, restart factor of rhoend in (0, 1] (C18-8); the bound test of done_with_current_rho is reflection-equivariant (T14, C18-6); the run counter recorded in the table counts every restart (C18-7).")
     rep.not_decided += ["'best objective never increases' (values)", "2 <= npt <= max"]
     rep.assumptions += ["rhobeg > rhoend > 0 on entry (validated by solve: C07-3 rows rhoend<=0, rhobeg<=rhoend)", "floating-point sqrt and multiplication are monotone (interval reasoning of C18-8 is over the reals)"]
-    rule_delta_ge_rho(eng, rep)
-    rule_rho_writers(eng, rep)
-    rule_delta_cap(eng, rep)
-    rule_table_shape(eng, rep)
-    rule_rhoend_single_source(eng, rep)
-    rule_rho_between_rhoend_and_rhobeg(eng, rep)
-    rule_radii_not_reassigned_after_validation(eng, rep)
-    rule_recorded_best_is_the_selection(eng, rep)
-    rule_one_row_per_iteration(eng, rep)
+    rep.guarded(rule_delta_ge_rho, eng, rep)
+    rep.guarded(rule_rho_writers, eng, rep)
+    rep.guarded(rule_delta_cap, eng, rep)
+    rep.guarded(rule_table_shape, eng, rep)
+    rep.guarded(rule_rhoend_single_source, eng, rep)
+    rep.guarded(rule_rho_between_rhoend_and_rhobeg, eng, rep)
+    rep.guarded(rule_radii_not_reassigned_after_validation, eng, rep)
+    rep.guarded(rule_recorded_best_is_the_selection, eng, rep)
+    rep.guarded(rule_one_row_per_iteration, eng, rep)
     from .mirrorrule import rule_mirror
-    rule_mirror(eng, rep, 'C18-6.bound-test-of-the-rho-reduction-criterion-is-symmetric', ['controller.Controller.done_with_current_rho'])
+    rep.guarded(rule_mirror, eng, rep, 'C18-6.bound-test-of-the-rho-reduction-criterion-is-symmetric', ['controller.Controller.done_with_current_rho'])
     from .c10 import rule_nruns
-    rule_nruns(eng, rep, rule="C18-7.run-counter-in-the-table-counts-every-restart")
+    rep.guarded(rule_nruns, eng, rep, rule="C18-7.run-counter-in-the-table-counts-every-restart")
